@@ -37,6 +37,9 @@ def handle : Handler := fun cmd j =>
     let a ← getArr j "trace"
     let tr ← a.mapM obsOf
     pure (Json.mkObj [("ok", toJson (accept .main [] tr)), ("prefix", toJson (acceptedPrefix tr))])
+  | "c35.notice" => do
+    let l ← chars j "line"
+    pure (toJson (isNoticeLine l))
   | "c35.wf" => do
     -- is a client program (list of ["cmd"|"ask", name] | "drain" | "handler" | "stop") well typed from the main loop?
     let a ← getArr j "prog"
